@@ -23,6 +23,7 @@ from typing import (
     Optional,
     Sequence,
     Set,
+    Tuple,
     Type,
     TypeVar,
     Union,
@@ -1039,13 +1040,19 @@ def list_hook(
 class OrderedSet(list, Generic[T], CBORSerializable):
     def __init__(self, iterable: Optional[List[T]] = None, use_tag: bool = True):
         super().__init__()
-        self._set: Set[str] = set()
+        self._set: Set[Tuple[type, str]] = set()
         self._use_tag = use_tag
         if iterable:
             self.extend(iterable)
 
+    @staticmethod
+    def _key(item: object) -> Tuple[type, str]:
+        # Elements of different classes may print alike (e.g. a stake registration and a stake
+        # deregistration certificate of the same credential), so the class is part of the identity.
+        return type(item), str(item)
+
     def append(self, item: T) -> None:
-        item_key = str(item)
+        item_key = self._key(item)
         if item_key not in self._set:
             super().append(item)
             self._set.add(item_key)
@@ -1055,7 +1062,7 @@ class OrderedSet(list, Generic[T], CBORSerializable):
             self.append(item)
 
     def __contains__(self, item: object) -> bool:
-        return str(item) in self._set
+        return self._key(item) in self._set
 
     def __eq__(self, other: object) -> bool:
         if not isinstance(other, OrderedSet):
